@@ -122,7 +122,7 @@ def obs_call(case):
         w = s.waveset
         return {'vals': s(xs).value, 'range': None if w is None else [float(w.value.min()), float(w.value.max())],
                 'ends': None if w is None else s(np.array([w.value.min(), w.value.max()])).value,
-                'is_table': type(s.model).__name__ == 'Empirical1D'}
+                'is_table': type(getattr(s, '_model', s.model)).__name__ == 'Empirical1D'}      # the rest-frame model of a redshifted source
     out['_src_before'] = guarded(rest)
     return out
 
@@ -255,6 +255,11 @@ def oracle_obs(rep, case, out):
         lo, hi = sb['ok']['range']
         e0, e1 = sb['ok']['ends']
         xs = [O.fl(x) for x in case['queries'][0]['xs']]
+        for x, s, s0 in zip(xs, o['_src_after'], sb['ok']['vals']):
+            if lo <= x <= hi and fc in ('extrap', 'taper') and abs(s - s0) > 1e-12 * max(abs(s0), abs(s)):
+                rep.oracle_fail('obs_%s:changed_inside_the_source_range' % fc,
+                                'inside its own range the observed source gives %r, the source itself %r' % (s, s0), case, out)
+                break
         for x, s in zip(xs, o['_src_after']):
             if fc == 'extrap':
                 if x < lo and abs(s - e0) > 1e-12 * abs(e0):
